@@ -170,6 +170,8 @@ func (x *Exec) runPoints(when, anchor string, st *State, pos token.Pos) {
 		}
 		x.usedPoints[i] = true
 		cenv := x.contractEnv(pos)
+		savedCall := x.curCall
+		x.curCall = x.anchorCalls[anchor]
 		if p.Assert != nil {
 			x.c.inContract++
 			t := x.defaultType(x.eval(p.Assert.Expr, st, cenv)).T
@@ -183,6 +185,7 @@ func (x *Exec) runPoints(when, anchor string, st *State, pos token.Pos) {
 		} else {
 			x.execGhost(p.Do, st, cenv)
 		}
+		x.curCall = savedCall
 	}
 }
 
@@ -711,6 +714,10 @@ func (x *Exec) havocLoop(body ast.Node, extra []types.Object, st *State, env *En
 			oldH := x.heap(st, s)
 			nh := x.c.freshConst("H", x.c.heapName(s))
 			h.heaps[s] = nh
+			if spec != nil && spec.WritesAll {
+				lc.writesAll = true
+				continue // no frame at all for this loop
+			}
 			// frame: arrays existing at loop entry other than the loop's writable set are unchanged
 			var excl []string
 			for _, r := range x.loopWritable(body, st, env, s) {
@@ -1113,6 +1120,7 @@ func (x *Exec) execFor(n *ast.ForStmt, st *State, env *Env) Flow {
 	if len(spec.Invariants) > 0 {
 		x.smoke(fmt.Sprintf("loop%d.body", ord), body, pos)
 	}
+	x.noteIterStart(ord, body)
 	x.execGhost(spec.DoStart, body, x.contractEnv(pos))
 	f := x.execBlock(n.Body.List, body, env)
 	end := x.merge(f.normal, f.cont)
@@ -1305,6 +1313,7 @@ func (x *Exec) execRange(n *ast.RangeStmt, st *State, env *Env) Flow {
 	if len(spec.Invariants) > 0 {
 		x.smoke(fmt.Sprintf("loop%d.body", ord), body, pos)
 	}
+	x.noteIterStart(ord, body)
 	x.execGhost(spec.DoStart, body, x.contractEnv(pos))
 	f := x.execBlock(n.Body.List, body, env)
 	end := x.merge(f.normal, f.cont)
